@@ -300,4 +300,128 @@ theorem step_nodup (r : Reg) (o : Op) (h : r.Nodup) : (step r o).1.Nodup := by
     simp only [step]
     cases hf : r.find n <;> simpa using h
 
+/-! ### concurrent EnsurePipe with one common definition -/
+
+/-- `p` has the name and the two conditions of the reference definition `d` -/
+def SameDef (d p : Pipe) : Prop := p.name = d.name ∧ p.fltCond = d.fltCond ∧ p.tagsCond = d.tagsCond
+
+def RegGood (d : Pipe) (reg : Reg) : Prop := ∀ q, reg.find d.name = some q → SameDef d q
+
+/-- what every caller's program counter satisfies along the run -/
+def Good (d : Pipe) (reg : Reg) (x : Pipe × Epc) : Prop :=
+  SameDef d x.1 ∧
+  match x.2 with
+  | .get n => n ≤ 1 ∧ (n = 1 → (reg.find d.name).isSome = true)
+  | .createStart n => n = 0
+  | .createChecked n => n = 0
+  | .done r => ∃ q, r = .ok q ∧ SameDef d q
+
+def EInv (d : Pipe) (s : EState) : Prop := RegGood d s.reg ∧ ∀ x ∈ s.pcs, Good d s.reg x
+
+theorem find_cons_same (reg : Reg) (p : Pipe) (n : Bytes) (h : p.name = n) : Reg.find (p :: reg) n = some p := by
+  simp [Reg.find, h]
+
+theorem good_mono (d p : Pipe) (reg : Reg) (x : Pipe × Epc) (hp : p.name = d.name)
+    (h : Good d reg x) : Good d (p :: reg) x := by
+  obtain ⟨h1, h2⟩ := h
+  refine ⟨h1, ?_⟩
+  cases hx : x.2 with
+  | get n =>
+    rw [hx] at h2; simp only [] at h2 ⊢
+    exact ⟨h2.1, fun _ => by rw [find_cons_same reg p d.name hp]; rfl⟩
+  | createStart n => rw [hx] at h2; exact h2
+  | createChecked n => rw [hx] at h2; exact h2
+  | done r => rw [hx] at h2; exact h2
+
+theorem estep_inv (d : Pipe) (s s' : EState) (a : Nat) (h : EInv d s) (hs : estep s a = some s') : EInv d s' := by
+  obtain ⟨hreg, hall⟩ := h
+  unfold estep at hs
+  cases hpa : s.pcs[a]? with
+  | none => simp [hpa] at hs
+  | some pp =>
+    obtain ⟨p, pc⟩ := pp
+    have hmem : (p, pc) ∈ s.pcs := List.mem_of_getElem? hpa
+    have hgood := hall (p, pc) hmem
+    obtain ⟨hsame, hpc⟩ := hgood
+    have hname : p.name = d.name := hsame.1
+    -- every entry of the updated list is the new one or an old one
+    have others : ∀ (v : Pipe × Epc) (reg' : Reg), (∀ x ∈ s.pcs, Good d reg' x) → Good d reg' v →
+        ∀ x ∈ s.pcs.set a v, Good d reg' x := by
+      intro v reg' hold hv x hx
+      rcases List.mem_or_eq_of_mem_set hx with h | h
+      · exact hold x h
+      · rw [h]; exact hv
+    cases pc with
+    | get n =>
+      simp only [hpa] at hs
+      simp only [] at hpc
+      cases hf : s.reg.find p.name with
+      | some q =>
+        have hq : SameDef d q := hreg q (by rw [← hname]; exact hf)
+        have hne : (q.fltCond != p.fltCond || q.tagsCond != p.tagsCond) = false := by
+          have e1 : p.fltCond = d.fltCond := hsame.2.1
+          have e2 : p.tagsCond = d.tagsCond := hsame.2.2
+          simp [hq.2.1, hq.2.2, e1, e2]
+        simp only [hf, hne, Bool.false_eq_true, if_false, Option.some.injEq] at hs
+        subst hs
+        exact ⟨hreg, others _ _ hall ⟨hsame, q, rfl, hq⟩⟩
+      | none =>
+        simp only [hf, Option.some.injEq] at hs; subst hs
+        refine ⟨hreg, others _ _ hall ⟨hsame, ?_⟩⟩
+        -- attempt 1 would find the pipe: so this is attempt 0
+        simp only []
+        rcases Nat.lt_or_ge n 1 with h0 | h1
+        · omega
+        · have : n = 1 := by omega
+          have := hpc.2 this
+          rw [← hname, hf] at this; cases this
+    | createStart n =>
+      simp only [hpa] at hs
+      simp only [] at hpc
+      cases hf : s.reg.find p.name with
+      | some q =>
+        simp only [hf, Option.some.injEq] at hs; subst hs
+        refine ⟨hreg, others _ _ hall ⟨hsame, ?_⟩⟩
+        subst hpc
+        simp only [nextAttempt]
+        refine ⟨by omega, fun _ => ?_⟩
+        rw [← hname, hf]; rfl
+      | none =>
+        simp only [hf, Option.some.injEq] at hs; subst hs
+        exact ⟨hreg, others _ _ hall ⟨hsame, hpc⟩⟩
+    | createChecked n =>
+      simp only [hpa] at hs
+      simp only [] at hpc
+      cases hf : s.reg.find p.name with
+      | some q =>
+        simp only [hf, Option.some.injEq] at hs; subst hs
+        refine ⟨hreg, others _ _ hall ⟨hsame, ?_⟩⟩
+        subst hpc
+        simp only [nextAttempt]
+        refine ⟨by omega, fun _ => ?_⟩
+        rw [← hname, hf]; rfl
+      | none =>
+        simp only [hf, Option.some.injEq] at hs; subst hs
+        refine ⟨?_, ?_⟩
+        · intro q hq
+          rw [find_cons_same s.reg p d.name hname] at hq
+          cases hq; exact hsame
+        · apply others
+          · intro x hx; exact good_mono d p s.reg x hname (hall x hx)
+          · refine ⟨hsame, ?_⟩
+            subst hpc
+            simp only [nextAttempt]
+            refine ⟨by omega, fun _ => ?_⟩
+            rw [find_cons_same s.reg p d.name hname]; rfl
+    | done r => simp [hpa] at hs
+
+theorem erun_inv (d : Pipe) (s : EState) (sched : List Nat) (h : EInv d s) : EInv d (erun s sched) := by
+  induction sched generalizing s with
+  | nil => simpa [erun] using h
+  | cons a as ih =>
+    simp only [erun]
+    cases hs : estep s a with
+    | none => exact ih s h
+    | some s' => exact ih s' (estep_inv d s s' a h hs)
+
 end Logrange.Registry
